@@ -33,7 +33,7 @@ def schedules(seed: int, cfg: int, k: int) -> List[Dict[str, Any]]:
 def build(seed: int, pid: str, ncfg: int) -> Tuple[Dict[str, Any], List[Dict[str, Any]]]:
     rs = Stream(seed, "workload", pid)
     opts = OPTS[pid]
-    if pid in ("C01", "C02") and rs.chance(opts.get("p_shapes", 0.05)):
+    if pid in ("C01", "C02") and rs.chance(opts.get("p_shapes", 0.08 if pid == "C02" else 0.05)):
         progs = [P.gen_shape_program(Stream(seed, "shape", pid), h64(seed, "cfg", c) % (1 << 31)) for c in range(ncfg)]
         return {"meta": progs[0]["meta"], "points": {}, "blocks": [], "chops": progs[0]["ops"]}, progs
     geo = P.gen_assembly(rs.sub("geo"), opts)
